@@ -365,6 +365,11 @@ func genConc(g *sim.Stream, tier string) *concProg {
 		w("tv := spawn(func(k) { return soft(k) }, 4)")
 	}
 	w("rv := try(func() { return tv.wait() }, func(e) { return \"raised:\" + string(e) })")
+	// spawn from inside a two-parameter list.map callback: index and value are
+	// the arguments given at the spawn site
+	w("mts := [\"a\", \"b\", \"c\"].map(func(i, v) { return spawn(func(x, y) { return [x, y] }, i, v) })")
+	w("rm := mts.map(func(t) { return t.wait() })")
+	w("if string(rm) != \"[[0, \\\"a\\\"], [1, \\\"b\\\"], [2, \\\"c\\\"]]\" { error(\"threads spawned from a list.map callback got \" + string(rm)) }")
 	if p.ManySpawns {
 		if g.Bool() {
 			w("ths := []; for i in 300 { ths.append(spawn(func(x) { return x }, i)) }")
